@@ -25,6 +25,9 @@ pub struct Case {
     pub sched: u8,
     pub seed: u64,
     pub multi_block: bool,
+    /// additionally a chain of this many nested directories (0 = none) with a file every 100 levels
+    #[serde(default)]
+    pub depth: u16,
 }
 
 pub fn strategy(max_n: u32) -> BoxedStrategy<Case> {
@@ -36,8 +39,9 @@ pub fn strategy(max_n: u32) -> BoxedStrategy<Case> {
         prop_oneof![2 => Just(0u8), 4 => Just(1u8), 2 => Just(2u8), 1 => Just(3u8), 1 => Just(4u8)],
         any::<u64>(),
         prop::bool::weighted(0.3),
+        prop_oneof![3 => Just(0u16), 1 => Just(300u16), 2 => Just(1100u16)],
     )
-        .prop_map(|(nfiles, ndirs, workers, parblock, sched, seed, multi_block)| Case { nfiles, ndirs, workers, parblock, sched, seed, multi_block })
+        .prop_map(|(nfiles, ndirs, workers, parblock, sched, seed, multi_block, depth)| Case { nfiles: if depth > 0 { std::cmp::min(nfiles, 600) } else { nfiles }, ndirs, workers, parblock, sched, seed, multi_block, depth })
         .boxed()
 }
 
@@ -55,6 +59,17 @@ pub fn judge(c: &Case, rec: &mut Rec) -> Verdict {
         let d = i % c.ndirs as u32;
         let len = if c.multi_block && i % 97 == 0 { 9000 } else { (i % 50) as u64 };
         ents.push(Ent::file(format!("s/dir{}/f{}", d, i).as_bytes(), Content::data(len, (i % 250) as u8)));
+    }
+    if c.depth > 0 {
+        let mut p = b"s/deep".to_vec();
+        ents.push(Ent::dir(&p));
+        for lvl in 0..c.depth {
+            p.extend_from_slice(b"/n");
+            ents.push(Ent::dir(&p));
+            if lvl % 100 == 99 {
+                ents.push(Ent::file(&[p.as_slice(), b"/f"].concat(), Content::data(7, 3)));
+            }
+        }
     }
     if let Err(e) = materialise(&sb.root, &ents) {
         return Verdict::Inconclusive(format!("materialise: {e}"));
@@ -105,6 +120,9 @@ pub fn judge(c: &Case, rec: &mut Rec) -> Verdict {
     }
     let driver = inv.driver();
     let sched_name = format!("{:?}", kind).split('(').next().unwrap_or("").to_string();
+    if c.depth > 0 {
+        rec.class(format!("depth={}|{}", c.depth, driver));
+    }
     let key = format!("{}|n={}|w{}|{}|exit={}", driver, c.nfiles, c.workers, if c.sched == 0 { "unsupervised".to_string() } else { sched_name.clone() }, if ok { "0" } else { "!0" });
     rec.class(key);
     if peak >= 0 {
@@ -143,7 +161,7 @@ impl Check for C20 {
     }
     fn run_shard(&self, ctx: &Ctx, rec: &mut Rec) {
         match ctx.tier {
-            Tier::Quick => prop_loop(ctx, rec, "gen", strategy(3000), ctx.share(32), judge),
+            Tier::Quick => prop_loop(ctx, rec, "gen", strategy(3000), ctx.share(48), judge),
             Tier::Thorough => prop_loop(ctx, rec, "gen", strategy(30000), ctx.share(300), judge),
         }
     }
@@ -155,11 +173,11 @@ impl Check for C20 {
     }
     fn min_nontrivial(&self, tier: Tier) -> usize {
         match tier {
-            Tier::Quick => 16,
+            Tier::Quick => 24,
             Tier::Thorough => 150,
         }
     }
     fn required_classes(&self, _tier: Tier) -> Vec<String> {
-        ["parblock|", "parfile|", "WalkerFirst", "w64|", "n=3000"].iter().map(|s| s.to_string()).collect()
+        ["parblock|", "parfile|", "WalkerFirst", "w64|", "n=3000", "depth=1100|parfile", "depth=1100|parblock"].iter().map(|s| s.to_string()).collect()
     }
 }
